@@ -29,7 +29,7 @@ var registry = map[string]*PropDef{
 	"SMOKE": {Harnesses: []HarnessDef{{Pkg: "cmd", Func: "VP_Smoke", Share: 1}}, QuickBudget: time.Minute, ThoroughBudget: time.Minute},
 	"C01": {
 		Harnesses: []HarnessDef{
-			{Pkg: "internal/object", Func: "VP_C01_RoundTrip", Quick: map[string]int{"payload": 6}, Thorough: map[string]int{"payload": 16}, Share: 0.25},
+			{Pkg: "internal/object", Func: "VP_C01_RoundTrip", Quick: map[string]int{"payload": 6, "shortReads": 1}, Thorough: map[string]int{"payload": 16, "shortReads": 1}, Share: 0.25},
 			{Pkg: "internal/object", Func: "VP_C01_Header", Quick: map[string]int{"sizedigits": 5, "rest": 2}, Thorough: map[string]int{"sizedigits": 7, "rest": 3}, Share: 0.25},
 			{Pkg: "internal/object", Func: "VP_C01_Idempotent", Quick: map[string]int{"payload": 3}, Thorough: map[string]int{"payload": 5}, Share: 0.25},
 			{Pkg: "cmd", Func: "VP_C01_Cli", Quick: map[string]int{"payload": 3}, Thorough: map[string]int{"payload": 6}, Share: 0.25},
@@ -38,7 +38,8 @@ var registry = map[string]*PropDef{
 	},
 	"C02": {
 		Harnesses: []HarnessDef{
-			{Pkg: "cmd", Func: "VP_C02_WriteTree", Quick: map[string]int{"entries": 3, "depth": 2, "complen": 1, "symhash": 0}, Thorough: map[string]int{"entries": 3, "depth": 2, "complen": 2, "symhash": 0}, Share: 0.50},
+			{Pkg: "cmd", Func: "VP_C02_WriteTree", Quick: map[string]int{"entries": 3, "depth": 2, "complen": 1, "symhash": 0}, Thorough: map[string]int{"entries": 3, "depth": 2, "complen": 2, "symhash": 0}, Share: 0.30},
+			{Pkg: "cmd", Func: "VP_C02_WriteTree", Quick: map[string]int{"entries": 2, "depth": 2, "complen": 2, "symhash": 0}, Thorough: map[string]int{"entries": 2, "depth": 3, "complen": 2, "symhash": 1}, Share: 0.20},
 			{Pkg: "cmd", Func: "VP_C02_Commit", Quick: map[string]int{"files": 2, "depth": 2, "complen": 1, "msglen": 1, "content": 1}, Thorough: map[string]int{"files": 2, "depth": 2, "complen": 2, "msglen": 2, "content": 1}, Share: 0.50},
 		},
 		QuickBudget: 8 * time.Minute, ThoroughBudget: 60 * time.Minute, Assumptions: commonAssumptions,
@@ -52,7 +53,7 @@ var registry = map[string]*PropDef{
 	"C04": {
 		Harnesses: []HarnessDef{
 			{Pkg: "cmd", Func: "VP_C04_Add", Quick: map[string]int{"tracked": 1, "depth": 2, "complen": 1}, Thorough: map[string]int{"tracked": 2, "depth": 2, "complen": 1}, Share: 0.33},
-			{Pkg: "cmd", Func: "VP_C04_Rm", Quick: map[string]int{"tracked": 2, "depth": 2, "complen": 1}, Thorough: map[string]int{"tracked": 2, "depth": 2, "complen": 2}, Share: 0.33},
+			{Pkg: "cmd", Func: "VP_C04_Rm", Quick: map[string]int{"tracked": 2, "depth": 2, "complen": 2, "deepcomplen": 1}, Thorough: map[string]int{"tracked": 2, "depth": 2, "complen": 2}, Share: 0.33},
 			{Pkg: "cmd", Func: "VP_C04_ReAdd", Quick: map[string]int{"files": 2, "depth": 2, "complen": 1}, Thorough: map[string]int{"files": 2, "depth": 2, "complen": 2}, Share: 0.33},
 		},
 		QuickBudget: 8 * time.Minute, ThoroughBudget: 60 * time.Minute, Assumptions: commonAssumptions,
@@ -90,7 +91,7 @@ var registry = map[string]*PropDef{
 	},
 	"C09": {
 		Harnesses: []HarnessDef{
-			{Pkg: "cmd", Func: "VP_C09_Restore", Quick: map[string]int{"tracked": 2, "depth": 2, "complen": 1}, Thorough: map[string]int{"tracked": 2, "depth": 2, "complen": 2}, Share: 0.50},
+			{Pkg: "cmd", Func: "VP_C09_Restore", Quick: map[string]int{"tracked": 2, "depth": 2, "complen": 2, "deepcomplen": 1}, Thorough: map[string]int{"tracked": 2, "depth": 2, "complen": 2}, Share: 0.50},
 			{Pkg: "cmd", Func: "VP_C09_RestoreStaged", Quick: map[string]int{"files": 1, "depth": 2, "complen": 1}, Thorough: map[string]int{"files": 2, "depth": 2, "complen": 1}, Share: 0.50},
 		},
 		QuickBudget: 8 * time.Minute, ThoroughBudget: 60 * time.Minute, Assumptions: commonAssumptions,
@@ -154,7 +155,7 @@ var registry = map[string]*PropDef{
 	},
 	"C18": {
 		Harnesses: []HarnessDef{
-			{Pkg: "cmd", Func: "VP_C18_AnyCmd", Quick: map[string]int{"states": 7, "arglen": 1}, Thorough: map[string]int{"states": 7, "arglen": 2}, Share: 1.00},
+			{Pkg: "cmd", Func: "VP_C18_AnyCmd", Quick: map[string]int{"statemask": 255, "maxargs": 2, "arglen": 1}, Thorough: map[string]int{"statemask": 255, "maxargs": 2, "arglen": 2}, Share: 1.00},
 		},
 		QuickBudget: 8 * time.Minute, ThoroughBudget: 60 * time.Minute, Assumptions: commonAssumptions,
 	},
@@ -162,7 +163,7 @@ var registry = map[string]*PropDef{
 		Harnesses: []HarnessDef{
 			{Pkg: "internal/object", Func: "VP_C19_ReadHeader", Quick: map[string]int{"n": 6}, Thorough: map[string]int{"n": 9}, Share: 0.08},
 			{Pkg: "internal/object", Func: "VP_C19_GetObject", Quick: map[string]int{"n": 5}, Thorough: map[string]int{"n": 7}, Share: 0.08},
-			{Pkg: "internal/object", Func: "VP_C19_ValidUnderName", Quick: map[string]int{"n": 5}, Thorough: map[string]int{"n": 8}, Share: 0.08},
+			{Pkg: "internal/object", Func: "VP_C19_ValidUnderName", Quick: map[string]int{"n": 5, "shortReads": 1}, Thorough: map[string]int{"n": 8, "shortReads": 1}, Share: 0.08},
 			{Pkg: "internal/object", Func: "VP_C19_RawObject", Quick: map[string]int{"rawZlibMax": 6}, Thorough: map[string]int{"rawZlibMax": 8}, Share: 0.08},
 			{Pkg: "internal/object", Func: "VP_C19_WalkTree", Quick: map[string]int{"n": 5}, Thorough: map[string]int{"n": 7}, Share: 0.08},
 			{Pkg: "internal/object", Func: "VP_C19_NewCommit", Quick: map[string]int{"n": 5}, Thorough: map[string]int{"n": 7}, Share: 0.08},
